@@ -9,12 +9,15 @@
 --   bits modhex                                  Context::num_modulus_bits     -> n | panic
 --   conj b g ext log2len modhex hname cr         security_level(true), q = 1..255 -> run-length coded levels (p = panic)
 --   prov b g ext log2len modhex hname cr q1 q2   security_level(false), q = q1..q2
+--   gconj b g ext log2len modhex hname cr        as `conj`, evaluated with the definition regenerated from the Rust source
+--                                                (Winter/Gen/Security.lean; translation validation of tie T)
 --   alpha b log2len                              side condition 0 <= 1-theta_plus < 1 over the m range -> mMax bad
 --   validate POL q b g ext ff fr log2len modhex hname cr [k o1.. ok]      AcceptableOptions::validate
 --   verify CFG EB airmodhex quad cube airok POL q b g ext ff fr log2len modhex hname cr [k o1..]   top of verify()
 --     POL = conj MIN | proven MIN | set
 import Winter.Drv.Util
 import Winter.Model.Security
+import Winter.Gen.Security
 
 namespace Drv.C18
 open Model.Security
@@ -96,6 +99,15 @@ def alphaBad (b n : Nat) : Nat × Nat :=
     if (0.0 : Float) ≤ x ∧ x < (1.0 : Float) then acc else acc + 1) 0
   (mMax, bad)
 
+/-- `security_level(true)` through the REGENERATED `get_conjectured_security` (+ its no-panic condition) -/
+def genLevel (q b g : Nat) (e : Ext) (bytes : List Nat) (n cr : Nat) : String :=
+  match numModulusBits bytes with
+  | .panic _ => "p"
+  | .ok bits =>
+    if Gen.Security.get_conjectured_security_ok b e.degree g q bits n cr then
+      toString (Gen.Security.get_conjectured_security b e.degree g q bits n cr)
+    else "p"
+
 def handle : List String → String
   | "opts" :: rest =>
     match natList rest with
@@ -152,6 +164,16 @@ def handle : List String → String
         if ¬ contextAccepted ⟨1, b, g, e, 8, 0⟩ (2 ^ l2) then "noctx" else
         rle ((List.range 255).map fun i =>
           resShort (securityLevel ⟨i + 1, b, g, e, 8, 0⟩ bytes (2 ^ l2) cr true))
+      | none => "bad-op"
+    | _, _ => "bad-op"
+  | ["gconj", b, g, e, l2, modhex, _hname, cr] =>
+    match natList [b, g, e, l2, cr], unhex modhex with
+    | some [b, g, e, l2, cr], some bytes =>
+      match Ext.ofNat? e with
+      | some e =>
+        if bytes.isEmpty ∨ l2 > 63 ∨ b > 255 ∨ g > 255 then "bad-op" else
+        if ¬ contextAccepted ⟨1, b, g, e, 8, 0⟩ (2 ^ l2) then "noctx" else
+        rle ((List.range 255).map fun i => genLevel (i + 1) b g e bytes (2 ^ l2) cr)
       | none => "bad-op"
     | _, _ => "bad-op"
   | ["prov", b, g, e, l2, modhex, _hname, cr, q1, q2] =>
